@@ -60,6 +60,9 @@ pub enum Dev {
     AmountTooLarge,
     Truncated(u8),
     Padded(u8),
+    /// one extra 32-byte word in front of an otherwise conforming payload (k % 6: 0x20 - the head offset a struct
+    /// encoded as a whole would carry -, 0x40, 0, the receive-from-hub tag, 0x60, 1); approved exactly as delivered
+    Prefixed(u8),
     /// any byte-level mutation of the conforming payload that makes it a non-canonical encoding
     /// (dirty type word / padding, shifted offsets, altered lengths, ...); the mutated payload is what is approved
     Mutated(super::c10::Mutation),
@@ -75,7 +78,7 @@ pub enum Dev {
     FromTrustedChainDirectly(u8),
 }
 
-const DEVS: [Dev; 29] = [
+const DEVS: [Dev; 30] = [
     Dev::FromTrustedChainDirectly(0),
     Dev::FromTrustedChainDirectly(1),
     Dev::FromTrustedChainDirectly(2),
@@ -105,6 +108,7 @@ const DEVS: [Dev; 29] = [
     Dev::BadRecipientOrMinter,
     Dev::AmountTooLarge,
     Dev::Truncated(1),
+    Dev::Prefixed(0),
 ];
 
 #[derive(Clone, Debug, Serialize, Deserialize)]
@@ -126,7 +130,8 @@ pub struct Case {
 fn dev() -> impl Strategy<Value = Dev> {
     prop_oneof![
         5 => Just(Dev::None),
-        29 => prop::sample::select(DEVS.to_vec()),
+        30 => prop::sample::select(DEVS.to_vec()),
+        2 => (0u8..6).prop_map(Dev::Prefixed),
         1 => (1u8..64).prop_map(Dev::Truncated),
         1 => (1u8..64).prop_map(Dev::Padded),
         8 => super::c10::mutation().prop_map(Dev::Mutated),
@@ -168,7 +173,7 @@ impl Property for C04 {
         "C04"
     }
     fn rule(&self) -> &'static str {
-        "proptest single cases: world = gateway + gas service + ITS (current-source token injected natively) with one ITS-deployed token, one registered canonical token with 500 in custody, an executable probe; a trusted-chain history of 0-6 set/remove operations over 3 chains; optionally a prior successful delivery from the same origin; then a conforming delivery (ReceiveFromHub wrapping a mint / a release / a transfer with data / a deploy with or without minter; amounts 0 - where acceptance is not decided by the statement -, 1..399 and exactly the custody) and at most one deviation from the statement's list (never approved; approved with other payload / id / source address / destination; already executed; approval re-submitted after execution - with 0..150 days passing between approval, delivery and the retries; source chain not the hub (another chain, or the hub's name in another letter case / with a trailing space); source address not the hub address; SendToHub wrapper; raw inner message; inner type 2; origin never trusted / removed again / removed between approval and execution / a trusted name in another letter case or with a trailing space; unknown token; undecodable recipient or minter (garbage, well-formed XDR of a string / number / bytes / vector, truncated address); amount 2^127 / 2^128+a / 2^192+a / 2^255+a; truncated / padded payload; any byte-level mutation - bit flip, dirty type word or padding, shifted offset, altered length - that leaves a non-canonical encoding, applied to the whole payload or to the nested message inside a well-formed envelope; a nested blob of 0..69 bytes; a bare / SendToHub-wrapped / ReceiveFromHub-wrapped message approved and delivered under the trusted origin chain itself instead of the hub chain; approved under the hub chain but delivered naming the trusted origin chain / the service's own chain / the hub name in another letter case). Oracle: effects (exact balance / custody / registry delta, gateway status executed, second delivery refused) iff no deviation; otherwise execute fails and the ledger snapshot is identical (approval still approved, not executed). non-trivial = a deviation is present, or the trust history contains a removal; distinct by Debug hash"
+        "proptest single cases: world = gateway + gas service + ITS (current-source token injected natively) with one ITS-deployed token, one registered canonical token with 500 in custody, an executable probe; a trusted-chain history of 0-6 set/remove operations over 3 chains; optionally a prior successful delivery from the same origin; then a conforming delivery (ReceiveFromHub wrapping a mint / a release / a transfer with data / a deploy with or without minter; amounts 0 - where acceptance is not decided by the statement -, 1..399 and exactly the custody) and at most one deviation from the statement's list (never approved; approved with other payload / id / source address / destination; already executed; approval re-submitted after execution - with 0..150 days passing between approval, delivery and the retries; source chain not the hub (another chain, or the hub's name in another letter case / with a trailing space); source address not the hub address; SendToHub wrapper; raw inner message; inner type 2; origin never trusted / removed again / removed between approval and execution / a trusted name in another letter case or with a trailing space; unknown token; undecodable recipient or minter (garbage, well-formed XDR of a string / number / bytes / vector, truncated address); amount 2^127 / 2^128+a / 2^192+a / 2^255+a; truncated / padded payload; one extra 32-byte word (0x20, 0x40, 0, the receive tag, 0x60, 1) in front of a conforming payload; message ids as long as two transaction hashes in a third of the deliveries; any byte-level mutation - bit flip, dirty type word or padding, shifted offset, altered length - that leaves a non-canonical encoding, applied to the whole payload or to the nested message inside a well-formed envelope; a nested blob of 0..69 bytes; a bare / SendToHub-wrapped / ReceiveFromHub-wrapped message approved and delivered under the trusted origin chain itself instead of the hub chain; approved under the hub chain but delivered naming the trusted origin chain / the service's own chain / the hub name in another letter case). Oracle: effects (exact balance / custody / registry delta, gateway status executed, second delivery refused) iff no deviation; otherwise execute fails and the ledger snapshot is identical (approval still approved, not executed). non-trivial = a deviation is present, or the trust history contains a removal; distinct by Debug hash"
     }
     fn cases(&self, tier: Tier) -> u64 {
         tier.pick(15000, 200000)
@@ -377,6 +382,16 @@ impl Property for C04 {
                 payload.truncate(payload.len() - k);
             }
             Dev::Padded(k) => payload.extend(std::iter::repeat(0u8).take(k as usize)),
+            Dev::Prefixed(k) => {
+                let w: u64 = [0x20, 0x40, 0, 4, 0x60, 1][k as usize % 6];
+                let mut p = crate::oracle::word_u64(w).to_vec();
+                p.extend_from_slice(&payload);
+                payload = p;
+                if crate::oracle::decode_hub_canonical(&payload).is_some() {
+                    cx.count("mutation_still_canonical_skipped");
+                    return Ok(());
+                }
+            }
             Dev::Mutated(m) => {
                 super::c10::apply(&mut payload, &m);
                 if crate::oracle::decode_hub_canonical(&payload).is_some() {
@@ -400,7 +415,8 @@ impl Property for C04 {
             _ => HUB_CHAIN,
         };
         let source_address = if dev == Dev::SourceAddressNotHub { "axelar1someoneelse" } else { HUB_ADDR };
-        let mid = w.next_message_id();
+        // (a third of the deliveries carry an id as long as two transaction hashes)
+        let mid = if case.seed % 3 == 1 { format!("0x{}-{}", "cd".repeat(66), case.seed % 10) } else { w.next_message_id() };
 
         // ---- approval (with its own deviations)
         match dev {
